@@ -59,6 +59,10 @@ OF OR IN CONNECTION WITH THE SOFTWARE OR THE USE OR OTHER DEALINGS IN THE SOFTWA
 #include <iomanip>
 #include <algorithm>
 
+#ifdef OPENSMT_VERIF_TRACE
+#include <common/VerifTrace.h>
+#endif
+
 namespace opensmt {
 
 //=================================================================================================
@@ -230,6 +234,12 @@ bool CoreSMTSolver::addOriginalClause_(vec<Lit> && ps, pair<CRef, CRef> & inOutC
 {
     assert(decisionLevel() == 0);
     inOutCRefs = {CRef_Undef, CRef_Undef};
+#ifdef OPENSMT_VERIF_TRACE
+    if (veriftrace::on()) {
+        veriftrace::emit(std::string("{\"e\":\"cl\",\"kind\":\"") + veriftrace::origin() + "\",\"ok\":" + (isOK() ? "true" : "false") +
+                         ",\"lits\":" + veriftrace::litsToJson(ps) + "}");
+    }
+#endif
     if (!isOK()) { return false; }
     bool logProof = this->logsResolutionProof();
     // Check if clause is satisfied and remove false/duplicate literals:
@@ -1343,6 +1353,9 @@ void CoreSMTSolver::popBacktrackPoint()
 
 bool CoreSMTSolver::okContinue() const
 {
+#ifdef OPENSMT_VERIF_TRACE
+    veriftrace::poll();
+#endif
     return not stopped() and not globallyStopped();
 }
 
@@ -1450,6 +1463,11 @@ lbool CoreSMTSolver::search(int nof_conflicts)
             }
             learnt_clause.clear();
             analyze(confl, learnt_clause, backtrack_level);
+#ifdef OPENSMT_VERIF_TRACE
+            if (veriftrace::on()) {
+                veriftrace::emit("{\"e\":\"cl\",\"kind\":\"learnt\",\"site\":\"search\",\"lits\":" + veriftrace::litsToJson(learnt_clause) + "}");
+            }
+#endif
 
             cancelUntil(backtrack_level);
 
